@@ -311,6 +311,12 @@ class NestedTransition(Transition):
                     on_final_cbs.append(
                         partial(event_data.machine.callbacks, event_data.machine.scoped.on_final, event_data))
                 is_final = True
+            # a state which is tagged final and has just been entered triggers its own callbacks even though
+            # (some of) its children are not final; it is not considered final by its parents
+            elif getattr(event_data.machine.scoped, 'final', False) and \
+                    any(event_data.machine.scoped.scoped_enter == part.func for part in enter_partials):
+                on_final_cbs.append(
+                    partial(event_data.machine.callbacks, event_data.machine.scoped.on_final, event_data))
         # if a state is a leaf state OR has children not in a final state
         elif getattr(event_data.machine.scoped, 'final', False):
             # if the state itself is considered final and has recently been entered trigger callbacks
